@@ -148,6 +148,8 @@ Definition new_result_single (t : gty) (o : ropts) : presult result :=
    the grouped type to be a slice and uses its element type as key *)
 Definition finish_group (dec : bool) (t : gty) (g : gname) (flat : bool) (as_ : list gty) : presult result :=
   if dec then
+    if flat then PErr 43     (* flatten in a decorator's result: a group decorator returns the entire group *)
+    else
     match t with
     | GSlice e => POk (RGroup (KG (tcode e) g) flat [])
     | _ => PErr 32
